@@ -15,3 +15,64 @@ RULE = ("as C02; delays 0/1/2/5/15/30 s and plugin-own delays 0/1/3/7/30 s, gaps
 def nontrivial(s, t, v):
     na, ns, nas = E.stats(s, t)
     return ns >= 1 and na >= 2
+
+
+# ---- the plugin side of the protocol: the real kill plugins call pause_actions only right before STOP --------------------
+#
+# The engine theorems of C05 (and h_engine's scripted plugins) assume the protocol of BaseKillPlugin::run: a plugin overrides
+# its ruleset's delay (Ruleset::pause_actions) only immediately before it returns STOP.  A kill plugin that pauses its ruleset
+# and then returns CONTINUE (always_continue) leaves the override flag set for a later, unrelated STOP - the delay of the
+# stopping action is then not the one C05 names.  That the five real kill plugins keep the protocol is decided on the kill
+# engine (h_kill, real plugins, interposed pause_actions): clause C05.pause_only_before_stop; nothing else of that engine
+# counts here.
+
+def kill_scenarios(rng, tier):
+    from . import _kill
+    n = {"quick": 1500, "thorough": 20000, "search": 4000}[tier]
+    for _ in range(n):
+        s = _kill.gen_one(rng, tier, PROP, "base")
+        a = s["cfg"]["args"]
+        # the interesting corner: a kill that succeeds, does not stop its chain, and has a delay of its own
+        if rng.random() < 0.5:
+            a["always_continue"] = "true"
+        if rng.random() < 0.7:
+            a["post_action_delay"] = str(rng.choice([0, 1, 7, 30]))
+        s["ctx"]["has_ruleset"] = True
+        yield s
+
+
+def run(tier, seed, replay=None):
+    import json
+    import os
+    import random
+    import sys
+    from vlib import core
+    from . import _kill
+    mod = sys.modules[__name__]
+
+    def want(c):
+        return c.startswith("C05.")
+    if replay:
+        rp = json.load(open(replay))
+        if rp.get("pass") == "killproto":
+            viol, _, _ = core.extra_pass(PROP, "kill", "h_kill", "asan", [rp["scenario"]], tier, seed, want=want, label="killproto")
+            for c, p in viol:
+                print("VIOLATION property=%s replay=%s" % (PROP, p))
+            return 1 if viol else 0
+        return core.run_check(mod, tier, seed, replay)
+    rc = core.run_check(mod, tier, seed, replay)
+    esc = tier == "quick" and core.changed_sources() and not os.environ.get("VERIF_NO_ESCALATION")
+    scs = list(kill_scenarios(random.Random(seed * 6029 + 23), "search" if esc else tier))
+    viol, cov, res = core.extra_pass(PROP, "kill", "h_kill", "asan", scs, tier, seed, want=want,
+                                     shrink_candidates=_kill.shrink_candidates, label="killproto")
+    cov["killproto_pass_pause_calls"] = sum(1 for s, t, v in res for r in t.get("runs", []) for tk in r.get("ticks", [])
+                                            if tk.get("pause") is not None)
+    cov["killproto_pass_always_continue_kills"] = sum(1 for s, t, v in res if s["cfg"]["args"].get("always_continue") == "true"
+                                                      and any(e["ev"] == "kill" and e["rc"] == 0 for e in _kill.all_events(t)))
+    core.merge_extra_into_evidence(PROP, cov, len(viol),
+                                   "plugin-protocol pass (the five real kill plugins, h_kill): the C01 scenario space with "
+                                   "always_continue in half and a plugin-own post_action_delay in 70% of the scenarios; clause: "
+                                   "pause_actions is called only in a run() that returns STOP")
+    for c, p in viol:
+        print("VIOLATION property=%s replay=%s" % (PROP, p))
+    return 1 if (rc or viol) else 0
